@@ -977,6 +977,42 @@ class SymByteArray:
     def __add__(self, o):
         return SymByteArray(self.d + list(o))
 
+    def __iadd__(self, o):
+        self.d.extend(list(o))
+        return self
+
+    def __mul__(self, n):
+        if isinstance(n, SymInt):
+            n = n.__index__()
+        return SymByteArray(self.d * n)
+
+    __rmul__ = __mul__
+
+    def __imul__(self, n):
+        self.d = (self * n).d
+        return self
+
+    def __delitem__(self, i):
+        del self.d[i]
+
+    def __contains__(self, v):
+        return any(bool(x == v) for x in self.d)
+
+    def insert(self, i, v):
+        self.d.insert(i, v)
+
+    def pop(self, i=-1):
+        return self.d.pop(i)
+
+    def clear(self):
+        self.d.clear()
+
+    def copy(self):
+        return SymByteArray(self.d)
+
+    def reverse(self):
+        self.d.reverse()
+
     def decode(self, *a, **k):
         # only used to hand bytes to IntelHex.puts; keep elements (recorder stub re-reads them)
         return SymStrOfBytes(self.d)
